@@ -324,6 +324,26 @@ func genCaseFiles(g *GenCase, dir string) map[string]string {
 		}
 	case "closure":
 		fmt.Fprintf(&cb, "var fn = func(%s) %s {\n\t%s%s\n}\n", params, result, ret, expr)
+	case "builtinarg":
+		fmt.Fprintf(&cb, "func use(%s) int {\n\treturn len(append([]%s(nil), %s))\n}\n", params, result, expr)
+	case "funcarg":
+		fmt.Fprintf(&cb, "func id(x %s) %s { return x }\n\nfunc use(%s) %s {\n\treturn id(%s)\n}\n", result, result, params, result, expr)
+	case "composite":
+		fmt.Fprintf(&cb, "type holder struct {\n\tV %s\n}\n\nfunc use(%s) []holder {\n\treturn []holder{{V: %s}}\n}\n", result, params, expr)
+	case "method":
+		fmt.Fprintf(&cb, "type recv struct{}\n\nfunc (r *recv) use(%s) %s {\n\t%s%s\n}\n", params, result, ret, expr)
+	case "goroutine":
+		if result != "" {
+			fmt.Fprintf(&cb, "func use(%s) {\n\tgo func() {\n\t\t_ = %s\n\t}()\n}\n", params, expr)
+		} else {
+			fmt.Fprintf(&cb, "func use(%s) {\n\tgo func() {\n\t\t%s\n\t}()\n}\n", params, expr)
+		}
+	case "deferred":
+		if result != "" {
+			fmt.Fprintf(&cb, "func use(%s) {\n\tdefer func() {\n\t\t_ = %s\n\t}()\n}\n", params, expr)
+		} else {
+			fmt.Fprintf(&cb, "func use(%s) {\n\tdefer %s\n}\n", params, expr)
+		}
 	default:
 		fmt.Fprintf(&cb, "func use(%s) %s {\n\t%s%s\n}\n", params, result, ret, expr)
 	}
